@@ -383,6 +383,32 @@ func c05Run(in []string) []string {
 			b1 := run()
 			b2 := run()
 			out = "q" + b1 + "/" + b2
+		case "QF":
+			// ForklessCause(A, B) for A among the last k and B among the first m indexed events, twice
+			ra := lastn(c05Atoi(op[1]))
+			m := c05Atoi(op[2])
+			rb := order
+			if m < len(rb) {
+				rb = rb[:m]
+			}
+			run := func() string {
+				var sb strings.Builder
+				for _, a := range ra {
+					for _, bb := range rb {
+						if index.ForklessCause(c05ID(a), c05ID(bb)) {
+							sb.WriteByte('1')
+							vu.Stat("fc_true")
+						} else {
+							sb.WriteByte('0')
+							vu.Stat("fc_false")
+						}
+					}
+				}
+				return sb.String()
+			}
+			b1 := run()
+			b2 := run()
+			out = "q" + b1 + "/" + b2
 		case "M":
 			r := lastn(c05Atoi(op[1]))
 			parts := make([]string, 0, len(r))
@@ -895,6 +921,53 @@ func c05ManyBranches(r *rand.Rand) []string {
 	return in
 }
 
+// c05BigDropped: size class "big-dropped-event".  5 validators, weights 5,1,1,1,1 (quorum 7): validator 0 (heavy)
+// is silent, validators 1..3 build a long round-robin DAG of N events (2 parents each), validator 4 joins late.
+// Then ONE speculative event of validator 0 on top of everything is added WITHOUT Flush - its LowestAfter DFS marks all
+// N ancestors - and dropped; validator 0's REAL first event has no parents; validator 4's first event sees it and a
+// few of the oldest events.  ForklessCause(that event, old events) must be false (validators 1..4 weigh 4 < 7); a
+// LowestAfter mark of the dropped event surviving in a cache makes validator 0 a phantom observer.  Cache sizes are
+// vecfc.DefaultConfig's or larger than the DAG, so nothing is evicted.  N varies around 1024 and up to ~1300.
+func c05BigDropped(r *rand.Rand) []string {
+	d := &c05Dag{nv: 5, ws: []uint32{5, 1, 1, 1, 1}}
+	fc, vc := 20000, 160*1024 // vecfc.DefaultConfig(cachescale.Identity)
+	if r.Intn(2) == 0 {
+		fc, vc = 50000, 4000000
+	}
+	in := c05Header(d, fc, vc, 0, 0)
+	n := []int{1019, 1022, 1023, 1024, 1025, 1026, 1030, 1100, 1200, 1300}[r.Intn(10)]
+	if r.Intn(3) == 0 {
+		n = 1100 + r.Intn(200)
+	}
+	lastOf := map[int]int{}
+	seqOf := map[int]int{}
+	for id := 1; id <= n; id++ {
+		cr := 1 + (id-1)%3
+		var ps []int
+		if lastOf[cr] != 0 {
+			ps = append(ps, lastOf[cr])
+		}
+		if id > 1 {
+			ps = append(ps, id-1)
+		}
+		seqOf[cr]++
+		in = append(in, c05EvOp(c05Ev{id: id, cr: cr, seq: seqOf[cr], parents: ps})...)
+		lastOf[cr] = id
+	}
+	// the speculative event of the silent validator observes everything; temporary id; dropped
+	x := c05EvOp(c05Ev{id: 100000, cr: 0, seq: 1, parents: []int{n, n - 1, n - 2}})
+	x[1] = "A"
+	in = append(in, x...)
+	in = append(in, ";", "D")
+	// its real first event observes nothing; the late joiner sees it and the oldest events
+	in = append(in, c05EvOp(c05Ev{id: n + 1, cr: 0, seq: 1})...)
+	old := 3 + r.Intn(6)
+	in = append(in, c05EvOp(c05Ev{id: n + 2, cr: 4, seq: 1, parents: []int{n + 1, old}})...)
+	in = append(in, ";", "QF", "1", strconv.Itoa(old+2), ";", "M", "1")
+	vu.Stat("scenario_big_dropped_event")
+	return in
+}
+
 // c05TwoEpochs: ONE Index object used for two consecutive epochs the way abft uses it: every event is
 // Add+Flush followed by a (no-op) DropNotFlushed, at the epoch switch the index is Reset onto a NEW empty DB with
 // ANOTHER validator set (more or fewer validators), then a second DAG (own cheaters, event ids overlapping with
@@ -1001,7 +1074,14 @@ func init() {
 				}
 			}
 			nextMany := 7
+			nextBig := 11
 			for i := 0; i < n; {
+				if i >= nextBig { // size class big-dropped-event: 2 per quick run
+					emit(c05BigDropped(r)...)
+					i++
+					nextBig += 30
+					continue
+				}
 				if i >= nextMany { // size class many-branches (65-140 branches of one cheater): 2 per quick run
 					emit(c05ManyBranches(r)...)
 					i++
